@@ -38,3 +38,28 @@ claim("C03", "other",
   "Partial claim: the numerical equality 'distances equal those computed from get_all_edges()' needs C04 and is NOT decided. R-C03-5 alarms only on a positively identified wrong direction; unrecognised shapes are reported undecided.",
   "inter-procedural decision-dependence slicing with predicate atoms + write-effect ownership + sibling argument pairing + comparison-direction rule",
   "DESIGN.md section 4, C03 (R-C03-1..5)")
+claim("C06", "other",
+  "Decides one necessary condition of C06 for all inputs: on directed graphs every distance-kernel call of closeness_centrality (serial and parallel arm) runs on the reversed graph and on undirected graphs on the graph itself -- provenance of the graph argument, control dependence of the reversal on specs.directed, and reaching definitions showing that the un-reversed graph reaches a kernel only along the undirected edge; plus dependence of the result on weighted / wf_improved.",
+  "Partial claim, stated plainly: the closeness formula's values, the WF scaling and the 0 for unreachable nodes are numerical and NOT decided. A value-conditional choice between the two graphs inside the directed branch is beyond may-dependence. Trusted: Graph::reverse (C15).",
+  "provenance slicing through closure captures + control-dependence atoms + reaching definitions on the MIR CFG",
+  "DESIGN.md section 4, C06 (R-C06-1, R-C06-2)")
+claim("C08", "other",
+  "Decides structural clauses of C08: the truth table of the fast-kernel dispatch (canonicalised conjunction), argument-position agreement of all kernel call sites with the entry points' same-named options (provenance, robust to renaming), a non-interference proof that with_paths / the paths vector influence no distance, heap entry or branch decision of the full kernel, the strict cutoff prune and finalise-before-exit shapes, and the constants/filter of get_all_shortest_paths_involving.",
+  "Partial claim: equality of the fast and full kernels' distances, symmetry and the triangle inequality are value-level and NOT decided. R-C08-3 is a sound non-interference result under flow-insensitive may-dependence.",
+  "predicate-atom canonicalisation + inter-procedural provenance descriptors + MUST-NOT-DEPEND slicing (non-interference) + operator/operand-role rule",
+  "DESIGN.md section 4, C08 (R-C08-1..5)")
+claim("C09", "other",
+  "Decides structural clauses of C09: no edge count taken from the number of keys of the pair-keyed stores on a multi-edge path (number_of_edges derives from the per-pair lists); adjacency-matrix triplets depend on specs.directed (mirror under undirected) and on is_nan(weight); degree_centrality's division is guarded; the self-loop correction of the (weighted) degree depends on specs.directed.",
+  "Partial claim: the handshake identities and every numeric value are NOT decided; R-C09-2 is evaluated on the adjacency_matrix feature configuration.",
+  "receiver-resolved call-site rule (HashMap::len on edge stores) + MUST-DEPEND slices on matrix triplets and degree terms",
+  "DESIGN.md section 4, C09 (R-C09-1..4)")
+claim("C15", "other",
+  "Decides structural clauses of C15: the four derived-graph functions cannot modify their source (&self, no write effects), return exactly the checked constructor's payload with the source's specs (collapse overrides only multi_edges), take the node list from the position-ordered store without reordering, and build the edge list as specified (Edge::reversed swaps u/v and keeps the rest; weight := parameter unconditionally; one summed edge per pair key; both-endpoints membership filter); kind refusals guard every answer.",
+  "Partial claim: the arithmetic of the sums and reverse(reverse(g)) == g as an equality are NOT decided. Relies on C01-C03 for the constructor.",
+  "write-effect summaries + constructor-provenance of the return value + field-source slices + closure truth-table canonicalisation + guard analysis",
+  "DESIGN.md section 4, C15 (R-C15-1..5)")
+claim("C18", "other",
+  "Decides one clause of C18 for all inputs: eigenvector_centrality returns Ok only on the true edge of 'sum of |x - xlast| < tolerance-derived bound' inside the max_iter-bounded loop, after normalisation; exhausting the iterator is the only way to the PowerIterationFailedConvergence exit.",
+  "Partial claim, stated plainly: unit norm, non-negativity and fixed-point quality are numerical and NOT decided.",
+  "control-dependence with edge polarity + natural-loop analysis + dependence slices of the comparison operands",
+  "DESIGN.md section 4, C18 (R-C18-1)")
